@@ -54,6 +54,10 @@ def dedicated(rng, thorough):
     for cnt in (500, 501, 502):
         items = [rng.choice([b"0x%02x" % rng.randrange(256), b"%d" % rng.randrange(256)]) for _ in range(cnt)]
         out.append(b"$b = " + b",".join(items) + b" ;")
+    # every spelling of an element the pattern admits: zero-padded decimals, 0X / upper-case hex, blanks after the comma - all values in range
+    for fmt in ([b"%03d"], [b"%02d", b"%d"], [b"0X%02X", b"%d"], [b"0x%02x", b"%03d", b"%d"]):
+        vals = [rng.randrange(256) for _ in range(505)]
+        out.append(b"$a = " + rng.choice([b",", b", ", b",\n  "]).join(rng.choice(fmt) % v for v in vals) + b" ;")
     items = [b"%d" % rng.randrange(300) for _ in range(520)]
     out.append(b",".join(items))
     out.append(b", ".join(b"0x%02X" % (i % 256) for i in range(510)) + b" -bxor 7")
@@ -90,6 +94,9 @@ def converse(ctx, n):
         kind = ctx.rng.choice(["b64", "hex", "HEX", "atob", "Base64Decode", "FromBase64String", "FromHexString"])
         ln = ctx.rng.randint(16, 48)
         p = bytes(ctx.rng.choice(b"abcdefgh tuvwxyz0123456789.:/") for _ in range(ln))
+        if ctx.rng.random() < 0.2:
+            # hex text that STARTS with >= 10 digit-only pairs (zero-padded words, time stamps): either alternative of the pattern can start matching it
+            p = bytes(ctx.rng.choice(b"0123456789 \x00\x10\x99") for _ in range(ctx.rng.randint(10, 16))) + p
         layer = stacks.BY_NAME[kind]
         if not layer.dom(p):
             continue
@@ -131,6 +138,10 @@ def run(ctx):
     if not (len(hits) == 1 and hits[0].start == 0 and hits[0].end == 32):
         ctx.violation("converse", [bytes.fromhex("3132333435363738393031323334353637383930313241424344454641424344")],
                       "upper-case hex run starting with >= 10 digit pairs is split (HEX_RE alternation order)", cls="F11")
+
+
+def scan_oracle(ctx, data, depth, tree, out):
+    return NO.walk(tree, NO.c13_node) if tree is not None else []
 
 
 def search(ctx):
